@@ -514,6 +514,24 @@ class invariant:  # pylint: disable=invalid-name
                 "but got: {}".format(cls, type(invariants_on_setattr))
             )
 
+            if isinstance(cls, icontract._metaclass.DBCMeta):
+                # NOTE (mristin):
+                # The meta-class gives a class its own lists only if one of the bases had invariants at the time when
+                # the class was created. If a base was decorated only afterwards, the class merely inherits the lists of
+                # that base. We have to copy them here, otherwise the invariants of this class would slip into
+                # the base (and into all the sibling classes).
+                if "__invariants__" not in cls.__dict__:
+                    invariants = invariants[:]
+                    setattr(cls, "__invariants__", invariants)
+
+                if "__invariants_on_call__" not in cls.__dict__:
+                    invariants_on_call = invariants_on_call[:]
+                    setattr(cls, "__invariants_on_call__", invariants_on_call)
+
+                if "__invariants_on_setattr__" not in cls.__dict__:
+                    invariants_on_setattr = invariants_on_setattr[:]
+                    setattr(cls, "__invariants_on_setattr__", invariants_on_setattr)
+
         invariants.append(self._invariant)
 
         if InvariantCheckEvent.CALL in self._invariant.check_on:
